@@ -25,6 +25,8 @@
 #include <fcntl.h>
 #include <sys/stat.h>
 #include <time.h>
+#include <signal.h>
+#include <sys/time.h>
 #include <pthread.h>
 #include "w2c2_base.h"
 #include "wasi.h"
@@ -72,6 +74,8 @@ DECL2(U32, random_get, (void*, U32, U32))
 DECL2(void, proc_exit, (void*, U32))
 #define CALL(abi, name, args) ((abi) == 'p' ? wasi_snapshot_preview1__##name args : wasi_unstable__##name args)
 
+static volatile long alarms;
+static void on_alarm(int sig) { (void)sig; alarms++; }
 static void* burner(void* p) {
     long ms = *(long*)p; struct timespec t; volatile unsigned long x = 0;
     do { int i; for (i = 0; i < 100000; i++) x += (unsigned long)i; clock_gettime(CLOCK_THREAD_CPUTIME_ID, &t); }
@@ -168,6 +172,7 @@ int main(int argc, char** argv) {
             if (!strcmp(lay, "malloc")) { for (k = n - 1; k >= 0; k--) vec[k] = strdup(vec[k]); }
             else if (!strcmp(lay, "rotate") && n > 1) { char* last = vec[n - 1]; for (k = n - 1; k > 0; k--) vec[k] = vec[k - 1]; vec[0] = last; }
             else if (!strcmp(lay, "midrev") && n > 3) { int a = 1, b = n - 2; while (a < b) { char* t_ = vec[a]; vec[a] = vec[b]; vec[b] = t_; a++; b--; } }   /* first and last stay, the middle is reversed */
+            else if (!strcmp(lay, "prefix") && v_ == 0 && n + 2 < 64) { vec[n] = "beyond-the-count"; vec[n + 1] = "also-beyond"; }   /* argc names a leading part of a longer array without terminator */
             else if (!strcmp(lay, "tails")) { for (k = 1; k < n; k++) { size_t a = strlen(vec[k - 1]), b = strlen(vec[k]); if (b <= a && !strcmp(vec[k - 1] + a - b, vec[k])) vec[k] = vec[k - 1] + a - b; } }
         }
     }
@@ -288,6 +293,18 @@ int main(int argc, char** argv) {
               for (a = 0; a < len; a++) { if (mem->data[BIG + a] == (U8)fill) { run++; if (run > maxrun) maxrun = run; } else run = 0; }
               for (a = 0; a < 64; a++) { if (mem->data[BIG - 64 + a] != (U8)fill) outside++; if (BIG + len + a < MEMSIZE && mem->data[BIG + len + a] != (U8)fill) outside++; }
               printf("{\"i\":%d,\"call\":\"random\",\"errno\":%u,\"len\":%u,\"longest_unchanged_run\":%u,\"outside_changed\":%u}\n", callno, err, len, maxrun, outside); OBS_FLUSH(); }
+            continue;
+        } else if (!strcmp(cmd, "sigrandom")) {
+            /* random_get while signals keep arriving (an interval timer without SA_RESTART): a request the host serves in pieces,
+               or that is interrupted, is still filled completely */
+            U32 len = (U32)strtoul(tok[2], 0, 10), fill = 0x5A, a, run = 0, maxrun = 0; struct sigaction sa; struct itimerval itv;
+            memset(mem->data + BIG, (int)fill, len + 64);
+            memset(&sa, 0, sizeof sa); sa.sa_handler = on_alarm; sigaction(SIGALRM, &sa, NULL);
+            itv.it_interval.tv_sec = 0; itv.it_interval.tv_usec = 40; itv.it_value = itv.it_interval; setitimer(ITIMER_REAL, &itv, NULL);
+            err = CALL(abi, random_get, (NULL, BIG, len));
+            memset(&itv, 0, sizeof itv); setitimer(ITIMER_REAL, &itv, NULL);
+            for (a = 0; a < len; a++) { if (mem->data[BIG + a] == (U8)fill) { run++; if (run > maxrun) maxrun = run; } else run = 0; }
+            printf("{\"i\":%d,\"call\":\"sigrandom\",\"errno\":%u,\"len\":%u,\"longest_unchanged_run\":%u,\"signals\":%ld}\n", callno, err, len, maxrun, alarms); OBS_FLUSH();
             continue;
         } else if (!strcmp(cmd, "exit")) { OBS_FLUSH(); CALL(abi, proc_exit, (NULL, (U32)strtoul(tok[2], 0, 10))); printf("{\"i\":%d,\"call\":\"exit\",\"returned\":true}\n", callno); continue; }
         else { printf("{\"i\":%d,\"unknown\":\"%s\"}\n", callno, cmd); continue; }
